@@ -37,6 +37,22 @@ Definition E_empty := err_shape "org.example.Empty" [].
 Definition E_shadow := err_shape "org.varlink.service"
   [ ("PermissionDenied", derive_unit, []); ("Custom", KStruct, [("why", str, FPlain)]) ].
 
+(* Fields named with raw identifiers.  The wire name of an un-renamed `r#type` is `type` (what
+   serde and the rest of the crate use): E_raw.  As of fe0c0b5 the ReplyError derive takes
+   `ident.to_string()` = "r#type" for both directions: E_raw_asis (open finding
+   C05.reply_error_raw_identifier_field; the check reads off reply_error.rs which one the tree under
+   test follows, the specification is always E_raw). *)
+Definition E_raw := err_shape "org.example.Raw"
+  [ ("Typed", KStruct, [("type", str, FPlain); ("count", u32, FPlain)]);
+    ("Matched", KStruct, [("match", i32, FPlain); ("ref", SOption bstr, FPlain)]);
+    ("Loop", derive_unit, []);
+    ("Renamed", KStruct, [("in", SBool, FPlain)]) ].
+Definition E_raw_asis := err_shape "org.example.Raw"
+  [ ("Typed", KStruct, [("r#type", str, FPlain); ("count", u32, FPlain)]);
+    ("Matched", KStruct, [("match", i32, FPlain); ("r#ref", SOption bstr, FPlain)]);
+    ("Loop", derive_unit, []);
+    ("Renamed", KStruct, [("in", SBool, FPlain)]) ].
+
 (* method types: serde's adjacently tagged derive (unit variants stay serde's) *)
 Definition M_meth := SAdj "method" "parameters"
   [ ("org.example.M.Ping", KUnit, []);
@@ -47,5 +63,8 @@ Definition M_methb := SAdj "method" "parameters"
   [ ("org.example.M.Put", KStruct, [("name", bstr, FPlain); ("value", i64, FPlain)]);
     ("org.example.M.Ping", KUnit, []) ].
 Definition M_meths := SStruct [("method", str, FPlain); ("parameters", SOption P_strict, FPlain)].
+Definition M_methn := SStruct [("method", str, FPlain); ("More", SOption SBool, FPlain);
+                              ("ONEWAY", SOption str, FPlain); ("upgrade_", SOption i64, FPlain);
+                              ("mor", SOption SBool, FPlain)].
 Definition M_value := SAny.
 Definition M_vsmethod := vs_method_shape.
